@@ -17,7 +17,7 @@ mutual
 def Val.leaves : Val → List Int
   | .leaf v => [v]
   | .null => []
-  | .seq xs => leavesList xs
+  | .seq _ xs => leavesList xs
   | .map _ => []
 def leavesList : List Val → List Int
   | [] => []
@@ -97,7 +97,7 @@ def decField (k : String) (args : List Val) : Except ErrKind (List (List Val)) :
   match args with
   | [.map kvs] =>
     match lookupKey k kvs with
-    | some (.seq xs) => .ok (xs.map ([·]))
+    | some (.seq _ xs) => .ok (xs.map ([·]))
     | some _ => .error .type
     | none => .error .key
   | _ => .error .type
